@@ -107,7 +107,10 @@ theorem C14_complete_every_member (H : Bytes → Bytes) (t : Tree) (m : Bytes) (
   exact ⟨ds, p, h, complete H t ds m p h⟩
 
 /-- The same at the contract's interface (`query_has_member` with hex strings): if the stored root string is the
-lower-case hex of the tree root, every listed entry with its hex-encoded proof is answered `has_member: true`. -/
+lower-case hex of the tree root, every listed entry with its hex-encoded proof is answered `has_member: true`.
+SCOPE: the hypothesis "stored root = `hexEncode r`" means the root was committed in LOWER-CASE hex (also in
+`C14_layered_complete`, `C14_tiered_complete`). An upper-case root passes `verify_merkle_root` at instantiate, after which
+no listed entry verifies (the contract compares with `hex::encode`'s lower case) — observation, docs/C14.md. -/
 theorem C14_complete_query (H : Bytes → Bytes) (n : Nat) (hH : HashOk H n) (t : Tree) (ds : List Dir) (m : Bytes)
     (p : List Bytes) (h : t.proofOf H ds = some (m, p)) :
     hasMember H n (hexEncode (t.root H)) m (p.map hexEncode) = some true := by
@@ -280,9 +283,11 @@ theorem C14_sound_counterexample_listed2n (H : Bytes → Bytes) (n : Nat) (hH : 
 bytes long (`2n` = 64 for SHA-256, 32 for BLAKE3/16) — only 1 and 2 remain.
 NOTE on reachability: a bare Stargaze CONTRACT address (`stars1` + 58 characters: DAO, smart-contract wallet) is exactly
 64 bytes, so a `(None, None)` leaf for it on the SHA-256 whitelist is outside these side conditions; for such lists use
-`C14_sound_partial` / `C14_sound_any_query`. On the BLAKE3/16 whitelist (`2n = 32`) every `stage‖bech32‖allocation`
-leaf is ≥ 44 bytes, so the conditions always hold there. -/
-theorem C14_sound (H : Bytes → Bytes) (n : Nat) (Hlen : ∀ x, (H x).length = n) (t : Tree)
+`C14_sound_partial` / `C14_sound_any_query_no2n_partial`. On the BLAKE3/16 whitelist (`2n = 32`) every
+`stage‖bech32‖allocation` leaf is ≥ 44 bytes, so the conditions always hold there.
+PARTIAL (side conditions `hleaf`, `hm`): a restricted form of the soundness clause, which is recorded as KNOWN FINDING
+`*/has_member/inner-preimage-accepted` (DESIGN 13.3) and is not provable literally. -/
+theorem C14_sound_no2n_partial (H : Bytes → Bytes) (n : Nat) (Hlen : ∀ x, (H x).length = n) (t : Tree)
     (hleaf : ∀ x ∈ t.leaves, x.length ≠ 2 * n) (m : Bytes) (hm : m.length ≠ 2 * n)
     (proof : List (List Nat))
     (h : hasMember H n (hexEncode (t.root H)) m proof = some true) :
@@ -294,10 +299,21 @@ theorem C14_sound (H : Bytes → Bytes) (n : Nat) (Hlen : ∀ x, (H x).length = 
   · exact absurd (inner_length H n Hlen t m h3) hm
   · exact absurd (foldPreimages_length H n Hlen ps (mapM_decodeN_length n proof ps hps) (H m) (Hlen m) x hx) (hleaf x hl)
 
+/-- alias of `C14_sound_no2n_partial` (kept because other modules refer to it) -/
+theorem C14_sound (H : Bytes → Bytes) (n : Nat) (Hlen : ∀ x, (H x).length = n) (t : Tree)
+    (hleaf : ∀ x ∈ t.leaves, x.length ≠ 2 * n) (m : Bytes) (hm : m.length ≠ 2 * n)
+    (proof : List (List Nat))
+    (h : hasMember H n (hexEncode (t.root H)) m proof = some true) :
+    ∃ ps, proof.mapM (decodeN n) = some ps ∧
+      (m ∈ t.leaves ∨ CollisionIn H (t.preimages H ++ queryPreimages H m ps)) :=
+  C14_sound_no2n_partial H n Hlen t hleaf m hm proof h
+
 /-- Only the LIST is constrained (no listed entry of `2n` bytes — something whoever builds the tree can check); the
 queried string is arbitrary, 64-character outsiders included. Then a positive answer means: listed, or a located
-collision, or the queried string is one of the `|leaves|−1` inner-node preimages of the tree. -/
-theorem C14_sound_any_query (H : Bytes → Bytes) (n : Nat) (Hlen : ∀ x, (H x).length = n) (t : Tree)
+collision, or the queried string is one of the `|leaves|−1` inner-node preimages of the tree.
+PARTIAL (side condition `hleaf` + the extra inner-node disjunct): restricted form of the soundness clause (KNOWN FINDING
+`*/has_member/inner-preimage-accepted`, DESIGN 13.3). -/
+theorem C14_sound_any_query_no2n_partial (H : Bytes → Bytes) (n : Nat) (Hlen : ∀ x, (H x).length = n) (t : Tree)
     (hleaf : ∀ x ∈ t.leaves, x.length ≠ 2 * n) (m : Bytes) (proof : List (List Nat))
     (h : hasMember H n (hexEncode (t.root H)) m proof = some true) :
     ∃ ps, proof.mapM (decodeN n) = some ps ∧
@@ -307,6 +323,14 @@ theorem C14_sound_any_query (H : Bytes → Bytes) (n : Nat) (Hlen : ∀ x, (H x)
   · exact ⟨ps, hps, Or.inr (Or.inl h2)⟩
   · exact ⟨ps, hps, Or.inr (Or.inr h3)⟩
   · exact absurd (foldPreimages_length H n Hlen ps (mapM_decodeN_length n proof ps hps) (H m) (Hlen m) x hx) (hleaf x hl)
+
+/-- alias of `C14_sound_any_query_no2n_partial` (kept because other modules refer to it) -/
+theorem C14_sound_any_query (H : Bytes → Bytes) (n : Nat) (Hlen : ∀ x, (H x).length = n) (t : Tree)
+    (hleaf : ∀ x ∈ t.leaves, x.length ≠ 2 * n) (m : Bytes) (proof : List (List Nat))
+    (h : hasMember H n (hexEncode (t.root H)) m proof = some true) :
+    ∃ ps, proof.mapM (decodeN n) = some ps ∧
+      (m ∈ t.leaves ∨ CollisionIn H (t.preimages H ++ queryPreimages H m ps) ∨ m ∈ t.inner H) :=
+  C14_sound_any_query_no2n_partial H n Hlen t hleaf m proof h
 
 /-- "the hash was broken on the inputs of THIS query": a collision among the node preimages of the tree the layered
 (`rs_merkle`) builder makes of `members` and the strings `query_has_member` hashes for `(m, proof)` -/
@@ -324,8 +348,10 @@ theorem layeredRoot_ne_nil (H : Bytes → Bytes) (members : List Bytes) (r : Byt
   intro h0; subst h0
   simp [layeredRoot, treeLayers, bitLen, layersFrom, layersRoot] at hr
 
-/-- Soundness against the root the layered (`rs_merkle`) builder computes for a member list. -/
-theorem C14_sound_layered (H : Bytes → Bytes) (n : Nat) (Hlen : ∀ x, (H x).length = n) (members : List Bytes)
+/-- Soundness against the root the layered (`rs_merkle`) builder computes for a member list.
+PARTIAL (side conditions `hleaf`, `hm`: no listed entry and not the queried string is exactly `2n` bytes long) — restricted
+form of the soundness clause (KNOWN FINDING `*/has_member/inner-preimage-accepted`, DESIGN 13.3). -/
+theorem C14_sound_layered_no2n_partial (H : Bytes → Bytes) (n : Nat) (Hlen : ∀ x, (H x).length = n) (members : List Bytes)
     (r : Bytes) (hr : layeredRoot H members = some r)
     (hleaf : ∀ x ∈ members, x.length ≠ 2 * n) (m : Bytes) (hm : m.length ≠ 2 * n)
     (proof : List (List Nat)) (h : hasMember H n (hexEncode r) m proof = some true) :
@@ -334,13 +360,22 @@ theorem C14_sound_layered (H : Bytes → Bytes) (n : Nat) (Hlen : ∀ x, (H x).l
   rw [hr] at h3
   have hrt : r = t.root H := by simpa using h3
   subst hrt
-  obtain ⟨ps, hps, hl | hc⟩ := C14_sound H n Hlen t (by rw [h2]; exact hleaf) m hm proof h
+  obtain ⟨ps, hps, hl | hc⟩ := C14_sound_no2n_partial H n Hlen t (by rw [h2]; exact hleaf) m hm proof h
   · left; rwa [h2] at hl
   · right; exact ⟨t, ps, h1, hps, hc⟩
 
+/-- alias of `C14_sound_layered_no2n_partial` (kept because other modules refer to it) -/
+theorem C14_sound_layered (H : Bytes → Bytes) (n : Nat) (Hlen : ∀ x, (H x).length = n) (members : List Bytes)
+    (r : Bytes) (hr : layeredRoot H members = some r)
+    (hleaf : ∀ x ∈ members, x.length ≠ 2 * n) (m : Bytes) (hm : m.length ≠ 2 * n)
+    (proof : List (List Nat)) (h : hasMember H n (hexEncode r) m proof = some true) :
+    m ∈ members ∨ QueryCollision H n members m proof :=
+  C14_sound_layered_no2n_partial H n Hlen members r hr hleaf m hm proof h
+
 /-- the same with an arbitrary queried string (only the list is free of `2n`-byte entries): the third possibility is
-that the queried string is an inner-node preimage of the layered tree -/
-theorem C14_sound_layered_any_query (H : Bytes → Bytes) (n : Nat) (Hlen : ∀ x, (H x).length = n)
+that the queried string is an inner-node preimage of the layered tree.
+PARTIAL (side condition `hleaf` + the extra inner-node disjunct; KNOWN FINDING, DESIGN 13.3). -/
+theorem C14_sound_layered_any_query_no2n_partial (H : Bytes → Bytes) (n : Nat) (Hlen : ∀ x, (H x).length = n)
     (members : List Bytes) (r : Bytes) (hr : layeredRoot H members = some r)
     (hleaf : ∀ x ∈ members, x.length ≠ 2 * n) (m : Bytes)
     (proof : List (List Nat)) (h : hasMember H n (hexEncode r) m proof = some true) :
@@ -349,24 +384,49 @@ theorem C14_sound_layered_any_query (H : Bytes → Bytes) (n : Nat) (Hlen : ∀ 
   rw [hr] at h3
   have hrt : r = t.root H := by simpa using h3
   subst hrt
-  obtain ⟨ps, hps, hl | hc | hi⟩ := C14_sound_any_query H n Hlen t (by rw [h2]; exact hleaf) m proof h
+  obtain ⟨ps, hps, hl | hc | hi⟩ := C14_sound_any_query_no2n_partial H n Hlen t (by rw [h2]; exact hleaf) m proof h
   · left; rwa [h2] at hl
   · right; left; exact ⟨t, ps, h1, hps, hc⟩
   · right; right; exact ⟨t, h1, hi⟩
 
+/-- alias of `C14_sound_layered_any_query_no2n_partial` (kept because other modules refer to it) -/
+theorem C14_sound_layered_any_query (H : Bytes → Bytes) (n : Nat) (Hlen : ∀ x, (H x).length = n)
+    (members : List Bytes) (r : Bytes) (hr : layeredRoot H members = some r)
+    (hleaf : ∀ x ∈ members, x.length ≠ 2 * n) (m : Bytes)
+    (proof : List (List Nat)) (h : hasMember H n (hexEncode r) m proof = some true) :
+    m ∈ members ∨ QueryCollision H n members m proof ∨ ∃ t, toTree members = some t ∧ m ∈ t.inner H :=
+  C14_sound_layered_any_query_no2n_partial H n Hlen members r hr hleaf m proof h
+
 /-- the two deployed instances, with no hypothesis left on the hash; the collision disjunct is LOCATED (a pair among
-the strings of this tree and this query), so the statement is not a pigeonhole triviality -/
+the strings of this tree and this query), so the statement is not a pigeonhole triviality.
+PARTIAL (side conditions `hleaf`, `hm`: no listed entry / queried string of exactly 64 resp. 32 bytes — on SHA-256 this
+excludes a bare 64-character contract address; KNOWN FINDING `*/has_member/inner-preimage-accepted`, DESIGN 13.3). -/
+theorem C14_sound_sha256_no2n_partial (members : List Bytes) (r : Bytes) (hr : layeredRoot Sha256.sha256 members = some r)
+    (hleaf : ∀ x ∈ members, x.length ≠ 64) (m : Bytes) (hm : m.length ≠ 64) (proof : List (List Nat))
+    (h : hasMember Sha256.sha256 32 (hexEncode r) m proof = some true) :
+    m ∈ members ∨ QueryCollision Sha256.sha256 32 members m proof :=
+  C14_sound_layered_no2n_partial _ 32 sha256_ok.len members r hr hleaf m hm proof h
+
+/-- alias of `C14_sound_sha256_no2n_partial` (kept because other modules refer to it) -/
 theorem C14_sound_sha256 (members : List Bytes) (r : Bytes) (hr : layeredRoot Sha256.sha256 members = some r)
     (hleaf : ∀ x ∈ members, x.length ≠ 64) (m : Bytes) (hm : m.length ≠ 64) (proof : List (List Nat))
     (h : hasMember Sha256.sha256 32 (hexEncode r) m proof = some true) :
     m ∈ members ∨ QueryCollision Sha256.sha256 32 members m proof :=
-  C14_sound_layered _ 32 sha256_ok.len members r hr hleaf m hm proof h
+  C14_sound_sha256_no2n_partial members r hr hleaf m hm proof h
 
+/-- the BLAKE3/16 instance; PARTIAL (side conditions `hleaf`, `hm`), see `C14_sound_sha256_no2n_partial` -/
+theorem C14_sound_blake3_no2n_partial (members : List Bytes) (r : Bytes) (hr : layeredRoot Blake3.blake3_16 members = some r)
+    (hleaf : ∀ x ∈ members, x.length ≠ 32) (m : Bytes) (hm : m.length ≠ 32) (proof : List (List Nat))
+    (h : hasMember Blake3.blake3_16 16 (hexEncode r) m proof = some true) :
+    m ∈ members ∨ QueryCollision Blake3.blake3_16 16 members m proof :=
+  C14_sound_layered_no2n_partial _ 16 blake3_16_ok.len members r hr hleaf m hm proof h
+
+/-- alias of `C14_sound_blake3_no2n_partial` (kept because other modules refer to it) -/
 theorem C14_sound_blake3 (members : List Bytes) (r : Bytes) (hr : layeredRoot Blake3.blake3_16 members = some r)
     (hleaf : ∀ x ∈ members, x.length ≠ 32) (m : Bytes) (hm : m.length ≠ 32) (proof : List (List Nat))
     (h : hasMember Blake3.blake3_16 16 (hexEncode r) m proof = some true) :
     m ∈ members ∨ QueryCollision Blake3.blake3_16 16 members m proof :=
-  C14_sound_layered _ 16 blake3_16_ok.len members r hr hleaf m hm proof h
+  C14_sound_blake3_no2n_partial members r hr hleaf m hm proof h
 
 /-! ## malformed hashes -/
 
@@ -471,7 +531,11 @@ limits / admins) but has no way to write a root. That the real `execute` / `migr
 that `execute_update_merkle_tree`, which exists in both sources, stays un-dispatched and that no new variant writes
 `MERKLE_ROOT(S)` — is VALIDATED BY THE HARNESS, not proved: the stored roots are compared with the roots the harness
 sent after every message; the `ExecuteMsg` surface is enumerated at run time and every variant without a protocol op,
-and guessed exposures of `update_merkle_tree`, are sent with another valid root under that monitor. -/
+and guessed exposures of `update_merkle_tree`, are sent with another valid root under that monitor.
+The HISTORY-LEVEL theorems below and in the last section — `C14_plain_answers_stable`, `C14_tiered_answers_frame`,
+`C14_mint_sender_bound_history`, `C14_mint_sender_bound_tiered_history`, `C14_minted_all_listed_plain/_tiered` — all rest on
+`Op.wlMsg` being unable to write a root (`run_plain` / `run_tiered`): they INHERIT this model-level root immutability, which
+is validated by the harness only. -/
 
 theorem setCfg_roots (wl post : Wl) : (wl.setCfg post).roots = wl.roots := by
   cases wl <;> cases post <;> simp [Wl.setCfg, Wl.roots]
@@ -641,7 +705,7 @@ theorem C14_tiered_no_active_stage (H : Bytes → Bytes) (s : Tiered) (now : Nat
   simp [Tiered.hasMember, h]
 
 /-- with active stage `i` the answer is the plain membership check against `roots[i]` (unfolding of the definition;
-the content is in `C14_tiered_complete`, `C14_tiered_sound`, `C14_tiered_other_roots_irrelevant`) -/
+the content is in `C14_tiered_complete`, `C14_tiered_sound_no2n_partial`, `C14_tiered_other_roots_irrelevant`) -/
 theorem C14_tiered_active_root (H : Bytes → Bytes) (s : Tiered) (now i : Nat) (r : List Nat) (m : Bytes)
     (proof : List (List Nat)) (hi : activeIdx now s.stages = some i) (hr : s.roots[i]? = some r) :
     s.hasMember H now m proof = hasMember H 16 r m proof := by
@@ -686,15 +750,25 @@ theorem C14_tiered_complete (H : Bytes → Bytes) (hH : HashOk H 16) (s : Tiered
 
 /-- soundness of the tiered query: a positive answer at time `now` means membership in the **active** stage's list
 (whose tree's root is stored at the active index), or a located collision — membership in another stage's list does
-not help. -/
-theorem C14_tiered_sound (H : Bytes → Bytes) (Hlen : ∀ x, (H x).length = 16) (s : Tiered) (now i : Nat)
+not help. PARTIAL (side conditions `hleaf`, `hm`: no listed entry / queried string of exactly 32 bytes; KNOWN FINDING
+`*/has_member/inner-preimage-accepted`, DESIGN 13.3). -/
+theorem C14_tiered_sound_no2n_partial (H : Bytes → Bytes) (Hlen : ∀ x, (H x).length = 16) (s : Tiered) (now i : Nat)
     (members : List Bytes) (r : Bytes)
     (hi : activeIdx now s.stages = some i) (hroot : s.roots[i]? = some (hexEncode r))
     (hr : layeredRoot H members = some r)
     (hleaf : ∀ x ∈ members, x.length ≠ 32) (m : Bytes) (hm : m.length ≠ 32) (proof : List (List Nat))
     (h : s.hasMember H now m proof = some true) : m ∈ members ∨ QueryCollision H 16 members m proof := by
   rw [C14_tiered_active_root H s now i _ m proof hi hroot] at h
-  exact C14_sound_layered H 16 Hlen members r hr hleaf m hm proof h
+  exact C14_sound_layered_no2n_partial H 16 Hlen members r hr hleaf m hm proof h
+
+/-- alias of `C14_tiered_sound_no2n_partial` (kept because other modules refer to it) -/
+theorem C14_tiered_sound (H : Bytes → Bytes) (Hlen : ∀ x, (H x).length = 16) (s : Tiered) (now i : Nat)
+    (members : List Bytes) (r : Bytes)
+    (hi : activeIdx now s.stages = some i) (hroot : s.roots[i]? = some (hexEncode r))
+    (hr : layeredRoot H members = some r)
+    (hleaf : ∀ x ∈ members, x.length ≠ 32) (m : Bytes) (hm : m.length ≠ 32) (proof : List (List Nat))
+    (h : s.hasMember H now m proof = some true) : m ∈ members ∨ QueryCollision H 16 members m proof :=
+  C14_tiered_sound_no2n_partial H Hlen s now i members r hi hroot hr hleaf m hm proof h
 
 /-! ## the sender is bound into the leaf -/
 
@@ -812,7 +886,10 @@ entries `(stage, address, allocation)`; all addresses (the listed ones and the c
 lengths from a set that is pairwise equal-or-more-than-10-apart (`[44, 64]` on Stargaze: accounts AND contracts in one
 list are covered); allocations are `u32`; no leaf is exactly 64 bytes long. If a mint by `sender` passes the whitelist
 gate — with *any* proof, in particular one issued to somebody else, and whatever the other gates say — then the
-caller's own `(stage, sender, allocation)` is a listed entry, or SHA-256 was broken on the strings of that query. -/
+caller's own `(stage, sender, allocation)` is a listed entry, or SHA-256 was broken on the strings of that query
+(`ListedOrBroken` = listed OR a located collision). SCOPE: only for callers and entries satisfying `TripleOk` — non-digit
+leading character, address length in `Ls`, `u32` allocation, and leaf length ≠ `2n` (on SHA-256 the last condition excludes
+a bare 64-character contract sender with neither stage nor allocation). -/
 theorem C14_mint_sender_bound_plain (H : Bytes → Bytes) (Hlen : ∀ x, (H x).length = 32) (now : Nat) (w w' : World)
     (s : Plain) (hw : w.wl = .plain s)
     (entries : List Entry) (Ls : List Nat) (hLs : LensApart Ls) (r : Bytes)
@@ -824,7 +901,7 @@ theorem C14_mint_sender_bound_plain (H : Bytes → Bytes) (Hlen : ∀ x, (H x).l
     ListedOrBroken H 32 entries stage sender alloc := by
   obtain ⟨pf, _, hm⟩ := mint_ok_hasMember H now w w' sender stage alloc proof res h
   simp only [Wl.hasMember, hw, Plain.hasMember, hroot] at hm
-  have := C14_sound_layered H 32 Hlen _ r hr
+  have := C14_sound_layered_no2n_partial H 32 Hlen _ r hr
     (by intro x hx; simp only [leavesOf, List.mem_map] at hx; obtain ⟨e, he, rfl⟩ := hx; exact (hent e he).not2n)
     _ hc.not2n pf hm
   rcases this with hmem | hcoll
@@ -858,7 +935,7 @@ theorem C14_mint_sender_bound_tiered (H : Bytes → Bytes) (Hlen : ∀ x, (H x).
     ListedOrBroken H 16 entries stage sender alloc := by
   obtain ⟨pf, _, hm⟩ := mint_ok_hasMember H now w w' sender stage alloc proof res h
   simp only [Wl.hasMember, hw] at hm
-  have := C14_tiered_sound H Hlen s now i _ r hi hroot hr
+  have := C14_tiered_sound_no2n_partial H Hlen s now i _ r hi hroot hr
     (by intro x hx; simp only [leavesOf, List.mem_map] at hx; obtain ⟨e, he, rfl⟩ := hx; exact (hent e he).not2n)
     _ hc.not2n pf hm
   rcases this with hmem | hcoll
@@ -1002,7 +1079,9 @@ theorem C14_minted_all_listed_tiered (H : Bytes → Bytes) (Hlen : ∀ x, (H x).
 
 /-- **Completeness at the minter** (the other half of the gate): while a window is active, a sender whose leaf
 verifies against the root in force, who has not minted in this window yet and whose authenticated allowance is at
-least 1, is let through — WHATEVER the witness for the other gates says (the model decides this case). -/
+least 1, is let through — WHATEVER the witness for the other gates says (the model decides this case).
+This is the DEFINITION of the aspect model's `mint` unfolded (any world `w`); on the code it is carried by the monitor
+`merkle-minter/mint/listed-rejected`, i.e. validated by the harness only. -/
 theorem C14_mint_first_accepted (H : Bytes → Bytes) (now : Nat) (w : World) (sender : Bytes) (stage alloc : Option Nat)
     (pf : List (List Nat)) (key pal : Nat) (res : Bool)
     (hact : w.wl.active now = some (key, pal))
@@ -1028,7 +1107,9 @@ theorem C14_mint_listed_accepted_plain (H : Bytes → Bytes) (hH : HashOk H 32) 
     (by simpa [Wl.hasMember, hw, Plain.hasMember, hroot] using this) hfirst hall]
   rfl
 
-/-- a closed gate is closed whatever the witness says (soundness at the minter is decided by the model) -/
+/-- a closed gate is closed whatever the witness says (soundness at the minter is decided by the model).
+DEFINITION of the aspect model's `mint` unfolded; on the code it is carried by the monitor
+`merkle-minter/mint/unlisted-sender-minted`, i.e. validated by the harness only. -/
 theorem C14_mint_gate_closed_rejects (H : Bytes → Bytes) (now : Nat) (w : World) (sender : Bytes)
     (stage alloc : Option Nat) (proof : Option (List (List Nat))) (res : Bool)
     (hg : gate H now w.wl sender stage alloc proof = false) :
